@@ -4591,3 +4591,246 @@ for _pid in ("C18", "C03", "C16"):
     P.PROPS[_pid]["streams"].append(o_huge_runs)
 for _pid in ("C16", "C03"):
     P.PROPS[_pid]["streams"].append(o_c13_docstrings_in_context)
+
+
+# ---------------------------------------------------------------- round-18 strengthening
+def c09_value_chains(ctx):
+    """columns are applied in header order, one after the other, each to the text the columns before it left: every
+    table of three columns named from {a, b} (repeated names included) against every row of values from
+    {'<a>', '<b>', 'x<a>y', '1', ''} -- a value may write a placeholder back, of its own column, of an earlier or of a
+    later one, and a repeated name finds what the first occurrence left"""
+    import itertools
+    vals = ["<a>", "<b>", "x<a>y", "1", ""]
+    srcs = []
+    for hs in itertools.product(["a", "b"], repeat=3):
+        rows = "".join("      | %s | %s | %s |\n" % v for v in itertools.product(vals, repeat=3))
+        srcs.append("Feature: f\n  Scenario Outline: n <a>/<b>\n    Given <a> and <b> and <a><b>\n      | <a> | <b><a> |\n    And d\n      \"\"\"<b>\n      <a>-<b>\n      \"\"\"\n    Examples:\n      | %s | %s | %s |\n%s" % (hs + (rows,)))
+    for hs in (("a", "a"), ("a", "b", "a", "b"), ("b", "a", "a", "a")):
+        rows = "".join("      | %s |\n" % " | ".join(v) for v in itertools.product(["<a>", "<b>", "2"], repeat=len(hs)))
+        srcs.append("Feature: f\n  Scenario Outline: n <a>/<b>\n    Given <a> and <b>\n    Examples:\n      | %s |\n%s" % (" | ".join(hs), rows))
+    reqs = [("events", [False, False, True, False, [["u.feature", s]]]) for s in srcs]
+
+    def pr(r_, req=None):
+        if "envelopes" not in r_:
+            return {"outcome": P.outcome(r_)}
+        return [pk_interp(e["pickle"]) if "pickle" in e else e for e in r_["envelopes"]]
+    return differential("value-chains", reqs, proj=pr, nontrivial=lambda q, x: canon(q[1])[:120], classify=lambda q, x: "doc", exhaustive=True)
+
+
+for _pid in ("C09", "C06", "C07"):
+    P.PROPS[_pid]["streams"].append(c09_value_chains)
+
+
+def c12_backslash_followers(ctx):
+    """a backslash pair is decoded for exactly three followers (n, |, backslash); before every other character -- each
+    printable ASCII character, each control character, Latin-1 and Latin Extended-A, separators and marks -- the backslash
+    stays, with its follower, at the start, in the middle and at the end of a cell, alone and doubled"""
+    followers = [chr(c) for c in list(range(0, 10)) + [11, 12] + list(range(14, 0x180))] + ["\u2028", "\u2029", "\ufeff", "\u200b", "\u3000", "\U0001f600"]
+    reqs = []
+    for c in followers:
+        reqs.append(("table_cells", ["| \\%s | a\\%sb | \\%s\\%s | x\\%s |" % (c, c, c, c, c)]))
+        reqs.append(("table_cells", ["|\\%s|C:\\%smp\\%s|\\\\%s|\\%s" % (c, c, c, c, c)]))
+    srcs = ["Feature: f\n  Scenario Outline: o\n    Given <h>\n      | \\%s | C:\\%smp |\n    Examples:\n      | h | \\%s |\n      | a\\%sb | \\%s |\n" % (c, c, c, c, c)
+            for c in "abefnrtuvxNT0'\"/ \t#@<>"]
+    c1 = differential("backslash-followers", reqs, nontrivial=lambda q, r_: q[1][0][:40], classify=lambda q, r_: "row", exhaustive=True)
+    c2 = e2e("backslash-followers-in-tables", srcs, P.p_cells, nontrivial=nt_accepted("ast"), exhaustive=True)
+    c1.evaluations += c2.evaluations
+    c1.disagreements += c2.disagreements
+    c1.nontrivial |= c2.nontrivial
+    return c1
+
+
+for _pid in ("C12", "C09"):
+    P.PROPS[_pid]["streams"].append(c12_backslash_followers)
+
+
+def c17_source_edges(ctx):
+    """the source envelope carries the file's text unchanged, and the other envelopes are those of that very text,
+    whatever the text begins or ends with: a byte order mark (one, two, before blanks, before a language header),
+    zero-width and no-break characters, NUL, form feed, the information separators, NEL, line and paragraph separators,
+    bare carriage returns, Ctrl-Z"""
+    leads = ["\ufeff", "\ufeff\ufeff", "\ufeff ", " \ufeff", "\ufeff\n", "\u200b", "\u2060", "\xa0", "\x00", "\x0c", "\x1c", "\x1f", "\x85", "\u2028", "\u2029",
+             "\u3000", "\r", "\r\n", "\n\ufeff", "\ufffe", "\x1a"]
+    bodies = ["Feature: f\n  Scenario: s\n    Given g\n", "# language: fr\nFonctionnalité: f\n  Scénario: s\n    Soit g\n", "Feature: f\n  Scenario: s\n    oops\n", "", "# only a comment"]
+    reqs = []
+    for i, ld in enumerate(leads):
+        for j, b in enumerate(bodies):
+            for s in (ld + b, b + ld):
+                k = i + j
+                reqs.append(("events", [True, k % 2 == 0, k % 3 != 0, False, [["edge.feature", s]]]))
+                reqs.append(("events", [True, True, True, False, [["a", s], ["b", bodies[0]], ["c", s]]]))
+    return differential("source-edges", reqs, nontrivial=lambda q, x: canon(q[1])[:120] if x.get("envelopes") else None,
+                        classify=lambda q, x: "sources:%d" % len(q[1][4]), exhaustive=True)
+
+
+for _pid in ("C17", "C15", "C01", "C03", "C04", "C02"):
+    P.PROPS[_pid]["streams"].append(c17_source_edges)
+
+
+def c19_tags_of_any_line(ctx):
+    """Markdown: the tags of a line are its backtick-quoted '@' words wherever they stand -- also on a line that is a
+    keyword header, a bullet step, a table row, a fence, a block quote -- each at its own column"""
+    ms = S.mstate("en")
+    r = rng("c19/anyline")
+    heads = ["# Feature: ", "## Scenario: ", "### Rule: see ", "#### Background:", "## Scenario Outline: o ", "##### Examples: ", "###### Scenario:", "####### Scenario: ",
+             "## Scénario: ", "## not a keyword: ", "#Feature: ", "* Given ", "- When ", "+ Then x ", "  * And ", "| a | ", "|", "> ", "```", "1. ", "Feature: ", "Scenario: ", "# ", "## "]
+    parts = ["`@a`", "`@wip`", "`@slow-1`", " and ", " ", "`@`", "`x`", "text", "`@a``@b`", "@bare", "`@un closed", "|", "`@é`", "#"]
+    reqs = []
+    for h in heads:
+        for ind in ("", "  ", "\t"):
+            reqs.append(("match_md", ["TagLine", ms, False, ind + h + "see `@wip` and `@slow`", 3]))
+            reqs.append(("match_md", ["TagLine", ms, False, ind + h + "`@only`\n", 3]))
+            reqs.append(("match_md", ["TagLine", ms, False, ind + h, 3]))
+    for _ in range(S.n_for(1500, 20000)):
+        line = r.choice(["", " ", "    "]) + r.choice(heads) + "".join(r.choice(parts) for _ in range(r.randint(0, 5))) + r.choice(["", "\n", " "])
+        reqs.append(("match_md", ["TagLine", ms, False, line, 7]))
+    return differential("md-tags-of-any-line", reqs, nontrivial=lambda q, x: q[1][3] if x.get("ans") else None,
+                        classify=lambda q, x: "tags" if x.get("ans") else "none")
+
+
+P.PROPS["C19"]["streams"].append(c19_tags_of_any_line)
+
+
+def cap_boundary(pid):
+    """the error cap and the duplicate rule at their edge: k = 0 .. 12 distinct errors already recorded, then a line that
+    produces more than one error, or the same error more than once -- a malformed tag line seen by a look-ahead and then
+    matched, behind a well-formed tag line, behind a ragged table that the tag line closes -- then further lines: the whole
+    result (tokens delivered, errors listed, where the run stops), parse, token listing and stream"""
+    def stream(ctx):
+        constructs = ["  @fine\n  @broken tag\n  Scenario: t\n    Given h\n",
+                      "  @broken tag\n  Scenario: t\n    Given h\n",
+                      "    Given g\n      | a | b |\n      | c |\n  @t1\n  @t 2\n  Scenario: t\n    Given h\n",
+                      "    Given g\n      | a | b |\n      | c |\n\n  # c\n  @t1\n\n  @t 2\n  @t 2\n  Scenario: t\n",
+                      "  @a b\n  @a b\n  @c d\n  Scenario: t\n    Given h\n  @e f\n  Scenario: u\n",
+                      "    Given g\n      | a | b |\n      | c |\n    unexpected here\n  @t 2\n  Scenario: t\n"]
+        srcs = []
+        for k in range(0, 13):
+            head = "Feature: f\n  Scenario: s\n    Given g\n" + "".join("    oops %d\n" % i for i in range(k))
+            for c in constructs:
+                srcs.append(head + c)
+                srcs.append(head + c + "    more unexpected\n    and more\n")
+        reqs = [("parse", [stop, "en", s]) for s in srcs for stop in (False, True)]
+        reqs += [("tokens", ["en", s]) for s in srcs]
+        reqs += [("events", [False, True, True, False, [["a.feature", s], ["b.feature", "Feature: after\n  Scenario: s\n    Given g\n"]]]) for s in srcs[::2]]
+        return differential("error-cap-boundary/" + pid, reqs, nontrivial=lambda q, x: canon(q[1])[:300], classify=lambda q, x: q[0], exhaustive=True)
+    stream.__name__ = "cap_boundary_" + pid
+    stream.__doc__ = cap_boundary.__doc__
+    return stream
+
+
+for _pid in ("C18", "C14", "C01", "C17", "C15"):
+    P.PROPS[_pid]["streams"].append(cap_boundary(_pid))
+
+
+C16_BLANK_DOCS = [
+    "Feature: f\n  # c0\n  Background:\n    # c1\n    Given b\n  Scenario: s\n  # c2\n    Given g\n  Rule: r\n    # c3\n    Example: e\n      # c4\n      Given h\n",
+    "Feature: f\n\n  # c0\n\n  Scenario Outline: o\n    # c1\n    Given <a>\n    # c2\n    Examples:\n      # c3\n      | a |\n      # c4\n      | 1 |\n",
+    "# c\n@t\n# c\nFeature: f\n  @s\n  # c\n  @u\n  Scenario: s\n    Given g\n      # c\n      | x |\n      # c\n      | y |\n    # c\n    And h\n",
+    "Feature: f\n  described\n  # c\n  more\n\n  Scenario: s\n    described too\n\n    # c\n    Given g\n      \"\"\"\n      text\n\n      \"\"\"\n    # c\n  Scenario: t\n  # c\n",
+    "Feature: f\n  Rule: r\n  # c\n  Background:\n  # c\n  Scenario: s\n  # c\n  Scenario Outline: o\n  # c\n  Examples:\n  # c\n  Examples: e\n",
+    "Feature: f\n  Scenario: s\n    Given g\n    # c\n    oops\n  # c\n  Scenario: t\n",
+]
+
+
+def c16_blank_everywhere(ctx):
+    """a blank line -- empty, or made of blanks, tabs, a no-break space -- inserted at EVERY position of a document (before
+    each line and at the end): (a) model against implementation on every variant, whole result; (b) the relation itself
+    for documents whose AST has no description and no doc string: the result is the original with the line numbers
+    behind the insertion raised by one.  Documents with comments directly behind title lines (where the grammar opens a
+    description that may turn out empty), between tags, between table rows, before steps"""
+    impl = impl_mod()
+    blanks = ["", " ", "\t", "  \t ", "\xa0", " \r"]
+    variants = []
+    for d in C16_BLANK_DOCS:
+        lines = d.split("\n")[:-1]
+        for i in range(len(lines) + 1):
+            for b in blanks:
+                variants.append("".join(x + "\n" for x in lines[:i] + [b] + lines[i:]))
+    c1 = e2e("blank-everywhere", variants, P.p_whole, modes=(False,), nontrivial=lambda q, r_: q[1][2][:200], exhaustive=True)
+
+    def shift(v, at):
+        import re
+        if isinstance(v, dict):
+            out = {}
+            for k, x in v.items():
+                if k == "location":
+                    x = dict(x)
+                    if x["line"] >= at:
+                        x["line"] += 1
+                    out[k] = x
+                elif k == "message" and isinstance(x, str):
+                    out[k] = re.sub(r"^\((\d+):(\d+)\)", lambda m: "(%d:%s)" % (int(m.group(1)) + (1 if int(m.group(1)) >= at else 0), m.group(2)), x)
+                else:
+                    out[k] = shift(x, at)
+            return out
+        if isinstance(v, list):
+            return [shift(x, at) for x in v]
+        return v
+
+    def plain(v):
+        """no description, no doc string anywhere in the AST"""
+        if isinstance(v, dict):
+            if v.get("description") or "docString" in v:
+                return False
+            return all(plain(x) for x in v.values())
+        if isinstance(v, list):
+            return all(plain(x) for x in v)
+        return True
+
+    def res_of(src):
+        x = impl.parse(False, "en", src)
+        return {k: v for k, v in x.items() if k in ("ok", "errors", "foreign")}
+    pool = [d for d in C16_BLANK_DOCS] + P.corpus_sources() + [s for s, _ in S.gen_sources(S.n_for(60, 1200), salt="c16/blank")]
+    pool = [s.replace("\r\n", "\n") for s in pool]
+    pool = [s for s in pool if "\r" not in s and s.endswith("\n") and s.count("\n") <= 60]
+    r = rng("c16/blank")
+
+    def check(src):
+        base = res_of(src)
+        if "ok" not in base or not plain(base["ok"]):
+            return None
+        lines = src.split("\n")[:-1]
+        for i in range(len(lines) + 1):
+            b = r.choice(blanks[:5])
+            var = "".join(x + "\n" for x in lines[:i] + [b] + lines[i:])
+            if canon(res_of(var)) != canon(shift(base, i + 1)):
+                return {"what": "a blank line %r inserted before line %d of a document without descriptions and doc strings changes more than line numbers" % (b, i + 1), "variant": var}
+        return None
+    c2 = oracle("blank-everywhere-relation", pool, check, describe=lambda s: s[:200])
+    c1.evaluations += c2.evaluations
+    c1.disagreements += c2.disagreements
+    c1.nontrivial |= c2.nontrivial
+    return c1
+
+
+for _pid in ("C16", "C03"):
+    P.PROPS[_pid]["streams"].append(c16_blank_everywhere)
+
+
+def c11_markup_rows_and_vanishing_texts(ctx):
+    """(a) table rows whose cells look like markup -- Markdown alignment rows ('| --- | :-: |'), rules of dashes, equals
+    signs, dots, asterisks, colons -- are rows like any other, at every row position of data tables and examples tables
+    of two to four rows (their ids, their cells, one pickle per body row); (b) texts that interpolate to nothing -- a step
+    text, a name, a cell, a doc string, a media type made only of placeholders whose values are empty -- still yield their
+    step, cell, argument, with its id: whole streams (ids included), model against implementation"""
+    marks = ["| --- | :-: |", "| - | - |", "|:--|--:|", "| === | === |", "| ... | . |", "| *** | * |", "| ___ | _ |", "| : | :: |", "| -- | x |", "| --- | --- |"]
+    srcs = []
+    for m in marks:
+        for n in (2, 3, 4):
+            for pos in range(n):
+                rows = ["| a | b |"] + ["| %d | %d |" % (i, i + 1) for i in range(1, n)]
+                rows[pos] = m
+                t = "".join("      %s\n" % x for x in rows)
+                srcs.append("Feature: f\n  Scenario: s\n    Given g\n%s    And h\n" % t)
+                srcs.append("Feature: f\n  Scenario Outline: o\n    Given <a> g\n    Examples:\n%s" % t)
+    for step in ("<e>", "<e><f>", "<e> <f>", " <e>", "<e>x"):
+        for vals in (("", ""), ("", "v"), ("v", "")):
+            srcs.append("Feature: f\n  Background:\n    Given b\n  Scenario Outline: <e>\n    Given first\n    And %s\n    But %s\n      | <e> | <f> |\n    * %s\n      \"\"\"<e>\n      <e><f>\n      \"\"\"\n    Then last\n    @t\n    Examples: <e>\n      | e | f |\n      | %s | %s |\n      | w | w |\n"
+                        % (step, step, step, vals[0], vals[1]))
+    reqs = [("events", [False, True, True, False, [["u.feature", s]]]) for s in srcs]
+    return differential("markup-rows-and-vanishing-texts", reqs, nontrivial=lambda q, x: canon(q[1])[:160] if x.get("envelopes") else None,
+                        classify=lambda q, x: "doc", exhaustive=True)
+
+
+for _pid in ("C11", "C12", "C04", "C06", "C07", "C09"):
+    P.PROPS[_pid]["streams"].append(c11_markup_rows_and_vanishing_texts)
